@@ -171,6 +171,11 @@ fn translate_select_pipeline(
     let take = range_of_ranges(ranges)?;
     let offset = take.start.map(|s| s - 1).unwrap_or(0);
     let limit = take.end.map(|e| e - offset);
+    let limit = if limit.is_none() && offset != 0 {
+        ctx.dialect.limit_for_unbounded_offset()
+    } else {
+        limit
+    };
 
     let mut offset = if offset == 0 {
         None
@@ -202,7 +207,17 @@ fn translate_select_pipeline(
     let (fetch, limit) = if ctx.dialect.use_fetch() {
         (limit.map(|l| fetch_of_i64(l, ctx)), None)
     } else {
-        (None, limit.map(expr_of_i64))
+        (
+            None,
+            limit.map(|l| {
+                if l < 0 {
+                    // (only emitted for `limit_for_unbounded_offset`)
+                    sql_ast::Expr::Value(sql_ast::Value::Number(l.to_string(), false).into())
+                } else {
+                    expr_of_i64(l)
+                }
+            }),
+        )
     };
 
     // If we have a FETCH we need to make sure that:
